@@ -60,7 +60,13 @@ func (x *exec) callCommon(st *State, fr *Frame, ins ssa.Instruction, c *ssa.Call
 		// nil interface receiver panics
 		x.safe(st, ins, "nilrecv", smt.Not(smt.Eq(fnv.one(), e.nilIface())))
 	} else if ci.dynamic && ci.fn == nil {
-		x.safe(st, ins, "nilfunc", smt.Not(smt.Eq(fnv.one(), e.null())))
+		declared := false
+		if a := varOf(c.Value); a != nil && x.unit != nil && x.unit.Spec != nil && x.unit.Spec.DynCalls[a.Comment] != "" {
+			declared = true // "dyncall": the registered callback is assumed to be a non-nil function without effect on verified state
+		}
+		if !declared {
+			x.safe(st, ins, "nilfunc", smt.Not(smt.Eq(fnv.one(), e.null())))
+		}
 	}
 	// package initialisers of imported packages only set their own package's variables
 	if ci.fn != nil && ci.fn.Name() == "init" && ci.fn.Signature.Recv() == nil && ci.fn.Parent() == nil && ci.fn != x.unitFn && ci.fn.Synthetic != "" {
@@ -564,8 +570,20 @@ func (x *exec) applyContract(st *State, fr *Frame, ins ssa.Instruction, ci calle
 			post.names["err"] = rets[res.Len()-1]
 		}
 	}
+	post.atCallSite = true
 	for _, cl := range fs.Ensures {
-		st.assume(post.evalBool(cl.Expr))
+		// clauses about the callee's own call trace (calls, emitted, arg, ...) say nothing to the caller
+		func() {
+			defer func() {
+				if r := recover(); r != nil {
+					if _, ok := r.(traceAtCallSite); ok {
+						return
+					}
+					panic(r)
+				}
+			}()
+			st.assume(post.evalBool(cl.Expr))
+		}()
 	}
 	if ev := st.trace; len(ev) > 0 && ev[len(ev)-1].Site == ins {
 		ev[len(ev)-1].Rets = rets
